@@ -13,7 +13,8 @@ var dstLayoutKinds = []string{"contig", "leadsliced", "leadsliced", "sliced", "s
 
 func genDst(rt *rapid.T, shape []int, d DT, label string) *Opnd {
 	lo, hi := valueRange(d)
-	o := genOpnd(rt, shape, rapid.SampledFrom(dstLayoutKinds).Draw(rt, label+"k"), lo, hi, 0, label)
+	// (an increment destination holds awkward values now and then: the accumulation order and precision show there)
+	o := genOpnd(rt, shape, rapid.SampledFrom(dstLayoutKinds).Draw(rt, label+"k"), lo, hi, 12, label)
 	return &o
 }
 
